@@ -1265,6 +1265,295 @@ def exhaustive_mutate(T):
 
 
 
+# --------------------------------------------------------------------------- mode "lifetime": keys that outlive their object
+#
+# The class of change: a cache key derived from the IDENTITY of an argument object (id(), a weak reference, hash() of an
+# object with the default hash) instead of the object itself.  Such a cache does not keep its argument alive; once the
+# argument is garbage CPython hands its address to the next object of the same size, the hit test sees an equal key and
+# serves the DEAD object's result to a different object without invoking the wrapped function.  It manifests only when
+# the first object really dies before the second is created, so every session here creates its argument objects inside a
+# helper (no reference survives the helper), drops them, and builds the next one with the same shape of allocation.  A
+# case is a RECIPE (how the objects are allocated / whether the collector runs in between) repeated `attempts` times; the
+# answer is judged on EVERY attempt (whether the address was in fact reused is counted, never required).
+
+LIFETIME_FRAME_RECIPES = ("comprehension+row", "literal", "list()", "tuple", "held-schema", "relation", "dicts")
+LIFETIME_SHAPES = ("slots", "dict", "kw", "pair", "nested", "two", "weakrefable")
+
+
+class Token:
+    """an argument object with the default __eq__ / __hash__ (identity), as small as an object gets"""
+
+    __slots__ = ("tag",)
+
+    def __init__(self, tag):
+        self.tag = tag
+
+
+class TokenD:
+    """the same with an instance dictionary"""
+
+    def __init__(self, tag):
+        self.tag = tag
+
+
+class TokenW:
+    __slots__ = ("tag", "__weakref__")
+
+    def __init__(self, tag):
+        self.tag = tag
+
+
+def _lifetime_frame(labels, recipe, held):
+    from orso import DataFrame
+
+    if recipe == "comprehension+row":
+        s = [x for x in labels]
+        return DataFrame(rows=[tuple(range(len(s)))], schema=s)
+    if recipe == "literal":
+        return DataFrame(rows=[], schema=[*labels])
+    if recipe == "list()":
+        return DataFrame(rows=[], schema=list(labels))
+    if recipe == "tuple":
+        return DataFrame(rows=[], schema=tuple(labels))
+    if recipe == "held-schema":  # the caller keeps every schema list: only the FRAME dies
+        s = [x for x in labels]
+        held.append(s)
+        return DataFrame(rows=[], schema=s)
+    if recipe == "relation":
+        from orso.schema import FlatColumn, RelationSchema
+        from orso.types import OrsoTypes
+
+        return DataFrame(rows=[], schema=RelationSchema(name="t", columns=[FlatColumn(name=str(l), type=OrsoTypes.INTEGER) for l in labels]))
+    if recipe == "dicts":
+        return DataFrame([dict((l, 0) for l in labels)])
+    raise InfraError("unknown lifetime recipe %r" % (recipe,))
+
+
+def _lifetime_frame_read(labels, recipe, held, site, sites):
+    """build a frame nobody else refers to, read one cached use site, let the frame die: (value, expected, addresses)"""
+    df = _lifetime_frame(labels, recipe, held)
+    ids = [id(df), id(df._schema)]
+    want = [str(l) for l in labels]
+    if site == "names":
+        got, exp = list(df.column_names), want
+    elif site == "count":
+        got, exp = df.columncount, len(want)
+    elif site == "shape":
+        got, exp = list(df.shape)[1], len(want)
+    else:  # any other cached property of DataFrame found at run time: the undecorated function is the reference
+        owner, attr, kind, w = sites[site]
+        got, exp = _strict(getattr(df, attr)), _strict(w.__wrapped__(df))
+    return got, exp, ids
+
+
+def _lifetime_unread(labels, recipe, held):
+    df = _lifetime_frame(labels, recipe, held)
+    return [id(df), id(df._schema)]
+
+
+def lifetime_sites():
+    import orso.tools as T
+    from orso import DataFrame
+
+    global _SITES
+    if _SITES is None:
+        _SITES = cached_use_sites(T)
+    return {d: (owner, attr, kind, w) for d, owner, attr, kind, w in _SITES if owner is DataFrame and kind == "property"}
+
+
+def run_lifetime_frames(case):
+    """attempts x (frame A with `first` labels: read, dies; frame B with `second` labels, same allocation: read, dies).
+    Stops at the first wrong answer.  Returns (outs, stats)."""
+    sites = lifetime_sites()
+    held = []
+    outs, reused, control = [], 0, 0
+    recipe, site = case["recipe"], case["site"]
+    if site not in ("names", "count", "shape") and site not in sites:
+        return [], {"skipped": "no such site"}
+    try:  # start from the same state in every process: a sentinel nobody else has
+        _lifetime_frame_read(["__sentinel_lifetime__"], "literal", [], "names", sites)
+    except Exception:
+        pass
+    last = None
+    for i in range(case.get("attempts", 40)):
+        for which in ("first", "second"):
+            labels = [_label(v) for v in case[which]]
+            try:
+                got, exp, ids = _lifetime_frame_read(labels, recipe, held, site, sites)
+            except Exception as e:
+                outs.append([i, which, "err", type(e).__name__])
+                return outs, {"reused": reused}
+            was = last is not None and (last == ids if recipe != "held-schema" else last[0] == ids[0])
+            reused += int(was)
+            last = ids
+            if case.get("collect"):
+                gc.collect()
+            if got != exp:
+                outs.append([i, which, "wrong", got, exp, {"addresses_of_the_previous_frame_and_schema_reused": was}])
+                return outs, {"reused": reused}
+        outs.append([i, "ok"])
+    # control: the same recipe with frames that are never read (so no cache can hold them) does reuse the addresses
+    a = _lifetime_unread([_label(v) for v in case["first"]], recipe, held)
+    for _ in range(8):
+        b = _lifetime_unread([_label(v) for v in case["second"]], recipe, held)
+        control += int(a == b if recipe != "held-schema" else a[0] == b[0])
+        a = b
+    return outs, {"reused": reused, "control_reuse": control}
+
+
+def _lifetime_call(w, log, shape, tag):
+    """create the argument object(s), call, let them die: (result, expected, number of invocations, address)"""
+    cls = {"dict": TokenD, "weakrefable": TokenW}.get(shape, Token)
+    tok = cls(tag)
+    n0 = len(log)
+    if shape == "kw":
+        r = w(t=tok)
+    elif shape == "pair":
+        r = w(tok, 0)
+    elif shape == "nested":
+        r = w((tok,))
+    elif shape == "two":
+        r = w(tok, cls(-tag))
+    else:
+        r = w(tok)
+    return r, ["for", tag], len(log) - n0, id(tok)
+
+
+def run_lifetime_decor(case):
+    """the decorators themselves: a wrapped function over argument objects that are created and dropped between calls;
+    every call has a NEW argument object (equal to no earlier one), so every call must invoke the wrapped function and
+    return what it produced for this object."""
+    def find(v):
+        if isinstance(v, (Token, TokenD, TokenW)):
+            return v.tag
+        if isinstance(v, tuple):
+            for x in v:
+                t = find(x)
+                if t is not None:
+                    return t
+        return None
+
+    with Patched() as T:
+        CLOCK.now = T0
+        log = []
+
+        def F(*args, **kwargs):
+            tag = find(args) if find(args) is not None else find(tuple(kwargs.values()))
+            log.append(tag)
+            return ["for", tag]
+
+        kw = {}
+        if case.get("valid") is not None:
+            kw["valid_for_seconds"] = case["valid"]
+        if case["cache"] == "single":
+            w = T.single_item_cache(F, **kw)
+        else:
+            w = T.lru_cache_with_expiry(F, max_size=case["max_size"], **kw)
+        outs, reused, last = [], 0, None
+        for i in range(case.get("attempts", 40)):
+            try:
+                r, exp, inv, addr = _lifetime_call(w, log, case["shape"], i + 1)
+            except Exception as e:
+                outs.append([i, "err", type(e).__name__])
+                break
+            reused += int(addr == last)
+            last = addr
+            if case.get("collect"):
+                gc.collect()
+            if r != exp or inv != 1:
+                outs.append([i, "wrong", r, exp, inv])
+                break
+            outs.append([i, "ok"])
+        return outs, {"reused": reused}
+
+
+def run_lifetime_impl(case):
+    return run_lifetime_frames(case) if case["target"] == "frames" else run_lifetime_decor(case)
+
+
+def oracle_lifetime(case, outs):
+    for o in outs:
+        if o[1] == "err" or (len(o) > 2 and o[2] == "err"):
+            return "call raised %s" % o[-1]
+        if case["target"] == "frames" and len(o) > 2 and o[2] == "wrong":
+            # (own wording: the runner keeps one replay per clause, and the replay of this mode is self-contained)
+            return ("frame was served the cached column names of another frame (one that no longer exists)" if case["site"] == "names" else
+                    "frame was served the cached column count of another frame (one that no longer exists)" if case["site"] in ("count", "shape") else
+                    "a cached use site served a frame the value computed for another frame (one that no longer exists)")
+        if case["target"] == "decor" and o[1] == "wrong":
+            if o[2] != o[3]:
+                return "result computed for a different argument object (one that no longer exists)"
+            return "wrapped function not invoked although the only entry held is for an argument object that no longer exists"
+    return None
+
+
+def valid_lifetime(c):
+    try:
+        if c.get("mode") != "lifetime" or not isinstance(c.get("attempts", 40), int) or not (3 if c.get("collect") else 20) <= c.get("attempts", 40) <= 400:
+            return False
+        if c["target"] == "frames":
+            ok = lambda ls: (isinstance(ls, list) and ls and all(isinstance(v, str) and v for v in ls) and len(set(ls)) == len(ls))  # noqa: E731
+            return c["recipe"] in LIFETIME_FRAME_RECIPES and isinstance(c["site"], str) and ok(c["first"]) and ok(c["second"])
+        return (c["target"] == "decor" and c["cache"] in ("single", "lru") and c["shape"] in LIFETIME_SHAPES
+                and (c["cache"] == "single" or (isinstance(c.get("max_size"), int) and c["max_size"] >= 1)))
+    except Exception:
+        return False
+
+
+_LIFETIME_STATS = {}
+
+
+def evaluate_lifetime(ctx, cases):
+    for c in cases:
+        outs, stats = run_lifetime_impl(c)
+        if stats.get("skipped"):
+            continue
+        ctx.case(c, len(outs) >= 1)
+        k = "lifetime:%s:%s" % (c["target"], c.get("recipe") or "%s:%s" % (c["cache"], c["shape"]))
+        ctx.hit(k)
+        ctx.hit("lifetime:attempts", len(outs))
+        st = _LIFETIME_STATS.setdefault(k, {"cases": 0, "attempts": 0, "address_reused_while_cached": 0, "address_reused_when_never_read": 0})
+        st["cases"] += 1
+        st["attempts"] += len(outs)
+        st["address_reused_while_cached"] += stats.get("reused", 0)
+        st["address_reused_when_never_read"] += stats.get("control_reuse", 0)
+        clause = oracle_lifetime(c, outs)
+        if clause is not None:
+            def still(c2):
+                return valid_lifetime(c2) and oracle_lifetime(c2, run_lifetime_impl(c2)[0]) == clause
+
+            if ctx.replaying:
+                ctx.fail(c, clause, impl=outs)
+                continue
+            if any(v.get("sig") == clause for v in ctx.violations):
+                ctx.hit("violation-dup:" + clause)
+                continue
+            small = shrink(c, still, budget=60)
+            ctx.fail(small, clause, impl=run_lifetime_impl(small)[0],
+                     detail="the argument object of the earlier call was garbage when this one was created (addresses are reused by CPython); "
+                            "the case is a loop of `attempts` rounds, judged on every round")
+
+
+def exhaustive_lifetime(thorough):
+    attempts = 200 if thorough else 60
+    slow = 12 if thorough else 3  # a full collection costs ~10 ms in this process
+    pairs = [(["a", "b"], ["c", "d", "e"]), (["p", "q", "r"], ["s", "t", "u"]), (["x"], ["y"])]
+    sites = ["names", "count", "shape"] + sorted(d for d, (o, attr, k, w) in lifetime_sites().items() if attr not in ("column_names", "columncount"))
+    for recipe in LIFETIME_FRAME_RECIPES:
+        for site in sites:
+            for collect in (False, True):
+                for first, second in (pairs if thorough or site == "names" else pairs[:1]):
+                    yield {"mode": "lifetime", "target": "frames", "recipe": recipe, "site": site, "collect": collect,
+                           "first": first, "second": second, "attempts": slow if collect else attempts}
+    for cache, ms in (("single", None), ("lru", 1), ("lru", 2)):
+        for shape in LIFETIME_SHAPES:
+            for collect in (False, True):
+                c = {"mode": "lifetime", "target": "decor", "cache": cache, "shape": shape, "collect": collect, "valid": VALID, "attempts": slow if collect else attempts}
+                if ms is not None:
+                    c["max_size"] = ms
+                yield c
+
+
 def gen_info():
     p = os.path.join(core.LEAN, "OrsoVerif", "Generated", "generated.json")
     return json.load(open(p))
@@ -1830,7 +2119,8 @@ def run(ctx):
         ctx.budget_s = min(ctx.budget_s, 540)  # the whole run stays under ten minutes with build, audit and leanchecker
     ctx.note("rule", "seq: call/advance histories on both caches, non-trivial = at least two calls; frames: accesses to "
              "DataFrame.column_names/columncount, non-trivial = at least two reads; conc: one complete line-level schedule of N real "
-             "threads per case, non-trivial = at least two threads actually interleaved; distinct by canonical JSON of the case")
+             "threads per case, non-trivial = at least two threads actually interleaved; lifetime: rounds of create -> use -> drop -> create a "
+             "different object at the same address -> use, non-trivial = at least one round; distinct by canonical JSON of the case")
     ctx.note("assumptions", [
         "one bytecode-level load/store of a closure cell or dict slot is atomic under the GIL; pre-emption below source-line "
         "granularity (CPython 'line' trace events) is not explored",
@@ -1898,6 +2188,16 @@ def run(ctx):
              "sharing a schema object, equal schemas, re-created receiver, two use sites) over every cached property of DataFrame" % len(mcases))
     ctx.note("use_sites_stale_after_mutation_of_the_same_receiver (same argument object: not a violation of C19, recorded only)", sorted(_STALE_SITES))
     phase["mutate_s"] = round(_time.time() - t_, 1)
+    # 2f. keys that outlive their object: argument objects / frames that are created, used and DROPPED between calls (the next
+    # one is allocated at the same address); every cached property of DataFrame and both decorators
+    t_ = _time.time()
+    lcases = list(exhaustive_lifetime(thorough))
+    evaluate_lifetime(ctx, lcases)
+    ctx.note("lifetime_scope", "%d sessions (create -> use -> drop every reference -> create a different one with the same shape of allocation -> use; "
+             "frame recipes %s x sites x collector on/off; decorators x argument shapes %s), each repeated and judged on every round"
+             % (len(lcases), "/".join(LIFETIME_FRAME_RECIPES), "/".join(LIFETIME_SHAPES)))
+    ctx.note("lifetime_address_reuse_measured", _LIFETIME_STATS)
+    phase["lifetime_s"] = round(_time.time() - t_, 1)
     facts = info.get("c19.site_facts") or []
     ctx.note("use_sites_covered_by_the_per_site_theorem", sorted(f["name"] for f in facts if f["decorator"] == "single_item_cache"
                                                                 and f["arity"] == 1 and not f["receiver_defines_eq"]))
@@ -1984,6 +2284,8 @@ def replay(ctx, case):
         evaluate_mutate(ctx, [case])
     elif mode == "raise":
         evaluate_raise(ctx, [case])
+    elif mode == "lifetime":
+        evaluate_lifetime(ctx, [case])
     elif mode == "conc":
         evaluate_conc(ctx, [case], deg[case["cache"]], info)
     else:
